@@ -211,7 +211,39 @@ static void op_fdim(int argc, char** a)
 	       computeDimension(c[4], c[3], c[2], c[1], c[0]), computeDataLength(c[4], c[3], c[2], c[1], c[0]));
 }
 
+
+/* ---------- C11 ---------- */
+#include "Huffman.h"
+/* huff <stateNum> <symbols>: encode_withTree / decode_withTree and the MSST19 pair */
+static void op_huff(int argc, char** a)
+{
+	int stateNum = (int)hx(a[0]); uint64_t* l; size_t n = parse_list(a[1], &l);
+	int* s = (int*)malloc((n + 1) * sizeof(int)); for (size_t i = 0; i < n; i++) s[i] = (int)l[i];
+	unsigned char* out = NULL; size_t outSize = 0;
+	HuffmanTree* t = createHuffmanTree(stateNum);
+	encode_withTree(t, s, n, &out, &outSize);
+	SZ_ReleaseHuffman(t);
+	int* dec = (int*)malloc((n + 1) * sizeof(int)); memset(dec, 0xff, (n + 1) * sizeof(int));
+	HuffmanTree* t2 = createHuffmanTree(stateNum);
+	decode_withTree(t2, out, n, dec);
+	SZ_ReleaseHuffman(t2);
+	int ok1 = !memcmp(dec, s, n * sizeof(int));
+	unsigned char* out2 = NULL; size_t outSize2 = 0;
+	HuffmanTree* t3 = createHuffmanTree(stateNum);
+	int maxBits = encode_withTree_MSST19(t3, s, n, &out2, &outSize2);
+	SZ_ReleaseHuffman(t3);
+	memset(dec, 0xff, (n + 1) * sizeof(int));
+	HuffmanTree* t4 = createHuffmanTree(stateNum);
+	decode_withTree_MSST19(t4, out2, n, dec, maxBits);
+	SZ_ReleaseHuffman(t4);
+	int ok2 = !memcmp(dec, s, n * sizeof(int));
+	int same = outSize == outSize2 && !memcmp(out, out2, outSize);
+	printf("size=%zx dec_ok=%d dec2_ok=%d same2=%d maxbits=%x ", outSize, ok1, ok2, same, maxBits);
+	print_bytes("bytes", out, outSize); printf("\n");
+	free(out); free(out2); free(dec); free(s); free(l);
+}
+
 struct op more_ops[] = {
-	{"rt", op_rt}, {"rtr", op_rtr}, {"fdim", op_fdim},
+	{"rt", op_rt}, {"rtr", op_rtr}, {"fdim", op_fdim}, {"huff", op_huff},
 	{NULL, NULL}
 };
